@@ -254,6 +254,12 @@ impl<'a> ConstraintValidator<'a> {
         jdn - 2440588
     }
 
+    /// Verification hook (H2): exposes the private calendar helper unchanged.
+    #[cfg(kahflane_turdb_verif)]
+    pub fn verif_days_from_ymd(year: i32, month: u32, day: u32) -> i32 {
+        Self::days_from_ymd(year, month, day)
+    }
+
     fn parse_time_default(s: &str) -> OwnedValue {
         let upper = s.to_uppercase();
         if upper == "CURRENT_TIME" {
